@@ -827,7 +827,16 @@ func (w *srvWorld) checkC09(final bool) {
 		if a.CancelSeq >= 0 {
 			ctxEnd, ctxEndDone = a.CancelSeq, a.CancelEnd
 		}
-		hctxMayEnd := a.FromH != nil && a.FromH.ID != "" // a call handler's context can be cancelled by CancelRequest
+		// a call handler's context can be cancelled by CancelRequest: only then may a
+		// callback issued from it with that context end "cancelled" on its account
+		hctxMayEnd := false
+		if a.FromH != nil && a.FromH.ID != "" {
+			for _, c := range w.acts {
+				if c.Kind == aCancel && c.ID == a.FromH.ID && c.Invoke >= 0 && (a.Return < 0 || c.Invoke <= a.Return) {
+					hctxMayEnd = true
+				}
+			}
+		}
 		if !a.Done {
 			reason := ""
 			for _, rep := range replies {
